@@ -39,13 +39,13 @@ SolveClause(c, r) ==
       [] c = "nonSolutionAddsNothing" -> (r.status \notin SolutionStatuses => r.nAfter = r.nBefore)
       [] c = "noSolutionLost" -> r.nAfter >= r.nBefore
       [] c = "topNotWorse" -> (r.hadTop /\ r.nAfter >= 1 => ~Worse(r.topAfter, r.topBefore))
-      [] c = "invalidStartOnlyIfInvalid" -> (r.status = "INVALID_START" => r.start \in r.obst)
-      [] c = "invalidGoalOnlyIfInvalid" -> (r.status = "INVALID_GOAL" => r.goal \in r.obst)
+      [] c = "invalidStartOnlyIfInvalid" -> (r.status = "INVALID_START" => ValidStartCells(r) = {})
+      [] c = "invalidGoalOnlyIfInvalid" -> (r.status = "INVALID_GOAL" => GoalCells(r) \subseteq r.obst)
       [] c = "exactOnlyIfReachable" ->
              (r.status = "EXACT" /\ r.thr = "tiny" /\ (\E i \in 1..Len(r.sols) : r.sols[i].added /\ ~r.sols[i].approx)
-                  => r.goal \in Reach(r.W, r.H, r.obst, r.start))
+                  => GoalCells(r) \cap ReachAny(r) # {})
       [] c = "noSolutionFromInvalidStart" ->
-             (r.start \in r.obst => \A i \in 1..Len(r.sols) : ~r.sols[i].added)
+             (ValidStartCells(r) = {} => \A i \in 1..Len(r.sols) : ~r.sols[i].added)
       [] c = "boundedReturn" -> (r.kval >= 0 => r.evals <= r.kval + B)
       [] c = "freshForgetsOldQueries" ->
              (Fresh => \A i \in 1..Len(r.sols) : r.sols[i].added => r.sols[i].stale = 0)
